@@ -61,3 +61,16 @@ Proof. reflexivity. Qed.
 (** a negative expiration second count wraps to a huge u64 ([as u64]) *)
 Lemma negative_expiration_wraps : u64_of_i64 (-1) = 18446744073709551615.
 Proof. reflexivity. Qed.
+
+(** KNOWN FINDING C18-unsupported-extensions: the raw extension bytes of an [AsEntry] are neither
+    signed nor carried by the RPC form, a value holding some does not come back (the premise
+    [asentry_wf] of the segment round trip is necessary) *)
+Definition t_ext_seg : segment :=
+  add_entry Toy.hash Toy.sig_sign Toy.enc_hb Toy.enc_hdr Toy.enc_body
+            (mkSeg (seginfo_new Toy.enc_info 100 7) [])
+            (mkAE 1 2 1500 (mkHE 1400 (mkHF 63 1 2 [1;2;3;4;5;6])) [] [42] []) 1 [1] 0.
+Lemma extensions_not_roundtripped :
+  seg_has_extensions t_ext_seg = true /\
+  segment_from_rpc Toy.dec_hb Toy.dec_body Toy.enc_info Toy.dec_info (segment_to_rpc Toy.enc_info t_ext_seg)
+  <> Ok t_ext_seg.
+Proof. split; [reflexivity|]. vm_compute. congruence. Qed.
